@@ -1,3 +1,4 @@
+import WS.Lemmas.PreparedSend
 import WS.Lemmas.PreparedLogic
 /-
   C19 — A PreparedMessage equals WriteMessage on every connection it is sent to.
@@ -51,6 +52,48 @@ theorem compressed_image_checked (k : PKey) (t : Int) (full keys : Bytes) (ki : 
     ∃ fs, Spec.decodeStream img = some fs ∧ Spec.WellFormed ⟨!k.isServer, true⟩ fs ∧
       Spec.messages fs = [⟨t.toNat, true, full.take (full.length - 4)⟩] := by
   first | exact PreparedLogic.compressed_image_checked .. | (apply PreparedLogic.compressed_image_checked <;> assumption)
+
+open WS.Content WS.PreparedSend in
+/-- prepared_equiv at the connection (the property's headline): a prepared text / binary message sent
+    on a connection between messages — either role, any buffer size, variant cached or rendered now —
+    is accepted and the wire gains exactly one complete message with the type and payload given at
+    creation, which is what `C02.writeMessage_roundtrip` says WriteMessage sends -/
+theorem prepared_data_roundtrip (s : W) (hi : Idle s) (pm : PM) (hv : PMValid pm) (t : Nat) (ht : t = 1 ∨ t = 2)
+    (hpt : pm.t = (t : Int)) (hd : pm.data.length < 2 ^ 40) (hplain : (prepKey s pm).compress = false) :
+    (writePrepared s pm none).1 = none ∧ Idle (writePrepared s pm none).2.1 ∧
+    wireMessages (writePrepared s pm none).2.1 = wireMessages s ++ [⟨t, false, pm.data⟩] ∧
+    wireControls (writePrepared s pm none).2.1 = wireControls s := by
+  first | exact PreparedSend.prepared_data_roundtrip .. | (apply PreparedSend.prepared_data_roundtrip <;> assumption)
+
+open WS.Content WS.PreparedSend in
+/-- prepared ping / pong: exactly one control frame with the payload given at creation -/
+theorem prepared_control_roundtrip (s : W) (hi : Idle s) (pm : PM) (hv : PMValid pm) (t : Nat) (ht : t = 9 ∨ t = 10)
+    (hpt : pm.t = (t : Int)) (hd : pm.data.length ≤ 125) :
+    (writePrepared s pm none).1 = none ∧ Idle (writePrepared s pm none).2.1 ∧
+    wireMessages (writePrepared s pm none).2.1 = wireMessages s ∧
+    wireControls (writePrepared s pm none).2.1 = wireControls s ++ [(t, pm.data)] := by
+  first | exact PreparedSend.prepared_control_roundtrip .. | (apply PreparedSend.prepared_control_roundtrip <;> assumption)
+
+open WS.PreparedSend in
+/-- the cache invariant the two theorems above assume is established by NewPreparedMessage … -/
+theorem newPrepared_valid (t : Int) (data keys : Bytes) (ki : Nat) (pm : PM)
+    (h : (newPrepared t data keys ki).1 = .ok pm) : PMValid pm ∧ pm.t = t ∧ pm.data = data := by
+  first | exact PreparedSend.newPrepared_valid .. | (apply PreparedSend.newPrepared_valid <;> assumption)
+
+open WS.PreparedSend in
+/-- … and preserved by every send of a data message (any connection, any environment answers) … -/
+theorem cache_valid_preserved_data (s : W) (pm : PM) (env : Option (Bytes × Bytes)) (dnp : List Bytes) (fullp : Bytes)
+    (h : PMValid pm) (t : Nat) (ht : t = 1 ∨ t = 2) (hpt : pm.t = (t : Int)) (hd : pm.data.length < 2 ^ 40) :
+    PMValid (writePrepared s pm env dnp fullp).2.2 := by
+  first | exact PreparedSend.writePrepared_valid_data .. | (apply PreparedSend.writePrepared_valid_data <;> assumption)
+
+open WS.PreparedSend in
+/-- … and of a ping / pong -/
+theorem cache_valid_preserved_control (s : W) (pm : PM) (env : Option (Bytes × Bytes)) (dnp : List Bytes) (fullp : Bytes)
+    (h : PMValid pm) (t : Nat) (ht : t = 9 ∨ t = 10) (hpt : pm.t = (t : Int)) (hd : pm.data.length ≤ 125) :
+    PMValid (writePrepared s pm env dnp fullp).2.2 := by
+  first | exact PreparedSend.writePrepared_valid_control .. | (apply PreparedSend.writePrepared_valid_control <;> assumption)
+
 
 /-! ### non-vacuity -/
 section NonVacuity
